@@ -14,6 +14,9 @@ def main():
         return
     pat = sys.argv[2] if len(sys.argv) > 2 else ""
     rel = None
+    only_lemmas = False
+    if pat == "@lemmas":
+        only_lemmas, pat = True, ""
     if pat.startswith("@locks"):
         rel = eng.lock_relevant_funcs()
         pat = pat[6:]
@@ -21,6 +24,8 @@ def main():
         if d.kind not in ("func", "lemma", "coverage") or pat not in d.name:
             continue
         if rel is not None and (d.kind != "func" or d.attrs.get("full") not in rel):
+            continue
+        if only_lemmas and d.kind != "lemma":
             continue
         if d.kind == "func" and (("effectfree" in d.flags and not d.tags) or "assumed" in d.flags or "opaque" in d.flags):
             continue
